@@ -494,3 +494,150 @@ pub fn model_second(rng: &mut Rng, cap2: usize) -> Model {
         }
     }
 }
+
+// ---------------------------------------------------------------- iterators with inexact size hints
+
+/// Yields `data`; its size hint is allowed by the Iterator contract but not exact.
+pub struct HintIter<'a> {
+    data: &'a [u8],
+    pos: usize,
+    kind: u8,
+    slack: usize,
+}
+
+impl Iterator for HintIter<'_> {
+    type Item = u8;
+    fn next(&mut self) -> Option<u8> {
+        let b = self.data.get(self.pos).copied();
+        if b.is_some() {
+            self.pos += 1;
+        }
+        b
+    }
+    fn size_hint(&self) -> (usize, Option<usize>) {
+        let rem = self.data.len() - self.pos;
+        match self.kind {
+            0 => (0, None),
+            1 => (0, Some(rem + self.slack)),
+            2 => (rem, Some(rem + self.slack)),
+            3 => (rem / 2, None),
+            _ => (0, Some(usize::MAX)),
+        }
+    }
+}
+
+/// An iterator over exactly the bytes of `data` whose size hint is inexact: filter,
+/// take_while, skip_while, flat_map, chain of filtered parts, or a custom iterator with a
+/// loose (but lawful) hint.  Returns the iterator and its name.
+pub fn odd_iter<'a>(rng: &mut Rng, data: &'a [u8]) -> (Box<dyn Iterator<Item = u8> + 'a>, &'static str) {
+    let flagged = |rng: &mut Rng, d: &[u8], junk_before: usize, junk_inside: usize, junk_after: usize| -> Vec<(u8, bool)> {
+        let mut v: Vec<(u8, bool)> = Vec::with_capacity(d.len() + junk_before + junk_inside + junk_after);
+        for _ in 0..junk_before {
+            v.push((rng.byte(), false));
+        }
+        v.extend(d.iter().map(|&b| (b, true)));
+        for _ in 0..junk_inside {
+            let i = junk_before + rng.range(0, v.len() - junk_before);
+            v.insert(i, (rng.byte(), false));
+        }
+        for _ in 0..junk_after {
+            v.push((rng.byte(), false));
+        }
+        v
+    };
+    let few = *rng.pick(&[1usize, 2, 6, 7, 8, 9, 20, 100]);
+    match rng.below(10) {
+        k @ 0..=4 => {
+            let names = ["custom iterator, size_hint (0, None)", "custom iterator, size_hint (0, Some(n+k))", "custom iterator, size_hint (n, Some(n+k))", "custom iterator, size_hint (n/2, None)", "custom iterator, size_hint (0, Some(usize::MAX))"];
+            (Box::new(HintIter { data, pos: 0, kind: k as u8, slack: few }), names[k as usize])
+        }
+        5 => (Box::new(flagged(rng, data, 0, few, 0).into_iter().filter(|p| p.1).map(|p| p.0)), "filter (junk items removed)"),
+        6 => (Box::new(flagged(rng, data, 0, 0, few).into_iter().take_while(|p| p.1).map(|p| p.0)), "take_while (junk items after the end)"),
+        7 => (Box::new(flagged(rng, data, few, 0, 0).into_iter().skip_while(|p| !p.1).map(|p| p.0)), "skip_while (junk items before the start)"),
+        8 => {
+            let k = *rng.pick(&[1usize, 3, 7, 8, 64]);
+            (Box::new(data.chunks(k).flat_map(|c| c.iter().copied())), "flat_map over chunks")
+        }
+        _ => {
+            let mid = rng.range(0, data.len());
+            let a = flagged(rng, &data[..mid], 0, few, 0);
+            let b = flagged(rng, &data[mid..], 0, few, 0);
+            (Box::new(a.into_iter().filter(|p| p.1).map(|p| p.0).chain(b.into_iter().filter(|p| p.1).map(|p| p.0))), "chain of two filtered parts")
+        }
+    }
+}
+
+// ---------------------------------------------------------------- asymmetric comparison shapes
+
+/// A pair of normalized hashes in which the block hash that is NOT compared is short (0..6
+/// symbols) or empty, while the compared ones have at least 7 symbols and share a 7-gram
+/// (or only a 6-gram): NearLt (b has twice the block size: a.bh2 ~ b.bh1), NearGt (mirror),
+/// NearEq (only one of the two pairs can match).
+pub fn asym_pair(rng: &mut Rng, cap2: usize) -> (Model, Model) {
+    let short = |rng: &mut Rng| -> Vec<u8> {
+        let n = rng.range(0, 6);
+        oracle::collapse(&(0..n).map(|_| rng.below(64) as u8).collect::<Vec<u8>>())
+    };
+    let long = |rng: &mut Rng, cap: usize| -> Vec<u8> {
+        let n = rng.range(7, cap);
+        let mut v = bh_norm(rng, cap);
+        while v.len() < 7 {
+            v = bh_norm(rng, cap);
+        }
+        v.truncate(n.max(7));
+        v
+    };
+    // `y` shares a 7-gram with `x` (or, for a near miss, only 6 symbols of one)
+    let sharing = |rng: &mut Rng, x: &[u8], cap: usize, miss: bool| -> Vec<u8> {
+        let at = rng.range(0, x.len() - 7);
+        let mut gram = x[at..at + 7].to_vec();
+        if miss {
+            let i = rng.range(0, 6);
+            gram[i] = (gram[i] + 1 + rng.below(62) as u8) % 64;
+        }
+        let pre = rng.range(0, (cap - 7).min(10));
+        let post = rng.range(0, (cap - 7 - pre).min(10));
+        let mut y: Vec<u8> = (0..pre).map(|_| rng.below(64) as u8).collect();
+        y.extend(gram);
+        y.extend((0..post).map(|_| rng.below(64) as u8));
+        let mut y = oracle::collapse(&y);
+        y.truncate(cap);
+        y
+    };
+    let miss = rng.chance(1, 4);
+    let log = rng.below(30) as u8;
+    let (a, b) = match rng.below(5) {
+        0 | 1 => {
+            // NearLt: a.bh1 short, a.bh2 ~ b.bh1; b.bh2 short or anything
+            let a2 = long(rng, cap2);
+            let b1 = sharing(rng, &a2, 64, miss);
+            let b2 = if rng.chance(1, 2) { short(rng) } else { bh_norm(rng, cap2) };
+            (Model { log_bs: log, bh1: short(rng), bh2: a2 }, Model { log_bs: log + 1, bh1: b1, bh2: b2 })
+        }
+        2 | 3 => {
+            // NearGt: a.bh2 short, a.bh1 ~ b.bh2; b.bh1 short or anything
+            let b2 = long(rng, cap2);
+            let a1 = sharing(rng, &b2, 64, miss);
+            let b1 = if rng.chance(1, 2) { short(rng) } else { bh_norm(rng, 64) };
+            (Model { log_bs: log + 1, bh1: a1, bh2: short(rng) }, Model { log_bs: log, bh1: b1, bh2: b2 })
+        }
+        _ => {
+            // NearEq: block hash 1 short on one or both sides, block hash 2 decides (or the other way round)
+            let a2 = long(rng, cap2);
+            let b2 = sharing(rng, &a2, cap2, miss);
+            let m = (Model { log_bs: log, bh1: short(rng), bh2: a2 }, Model { log_bs: log, bh1: if rng.chance(1, 2) { short(rng) } else { bh_norm(rng, 64) }, bh2: b2 });
+            if rng.chance(1, 2) {
+                m
+            } else {
+                // swap the roles of the block hashes where the capacity allows
+                let sw = |x: Model| if x.bh2.len() <= 64 && x.bh1.len() <= cap2 { Model { log_bs: x.log_bs, bh1: x.bh2, bh2: x.bh1 } } else { x };
+                (sw(m.0), sw(m.1))
+            }
+        }
+    };
+    if rng.chance(1, 2) {
+        (a, b)
+    } else {
+        (b, a)
+    }
+}
